@@ -93,6 +93,16 @@ pub fn c05_build(raw: &Raw, _tier: Tier, _sched: bool) -> Scenario {
         }
         b.s.threads[c].push(Op::Stall(stall_of(knob(raw, 13))));
         b.s.threads[c].push(Op::GateOpen { gate: g });
+        // sometimes the store is stopped while producers are still waiting for room: whatever was
+        // accepted must still be reduced
+        if knob(raw, 14) % 3 == 0 {
+            let st = b.thread();
+            let lead = pick(knob(raw, 15), 5);
+            for i in 0..lead {
+                b.s.threads[st].push(Op::Stall(stall_of(knob(raw, 15).wrapping_add(i as u16 * 7))));
+            }
+            b.s.threads[st].push(Op::Stop { store: s, via_trait: false });
+        }
     }
     b.s.epilogue.push(Op::Stop { store: s, via_trait: false });
     b.s.epilogue.push(Op::GetState { store: s });
@@ -117,7 +127,7 @@ pub fn c05_check(scn: &Scenario, h: &History) -> Outcome {
             }
         }
         for x in d.disps.iter().filter(|x| d.store_of_act(x.act) == s && x.ok == Some(false)) {
-            if x.inv < d.stores[s].first_shutdown_inv.unwrap_or(usize::MAX) {
+            if x.ret.map(|r| r < d.stores[s].first_shutdown_inv.unwrap_or(usize::MAX)).unwrap_or(false) {
                 out.viol(format!("dispatch of action {} was rejected although the store was open (BlockOnFull never discards)", x.act));
             }
         }
@@ -149,6 +159,9 @@ pub fn c05_check(scn: &Scenario, h: &History) -> Outcome {
         if reached {
             out.class("bound-reached");
         }
+        if d.ops.values().any(|o| o.th != 0 && matches!(d.op(o.th, o.ix), Some(Op::Stop { .. }))) {
+            out.class("stop-while-producers-wait");
+        }
         if waited {
             out.class("dispatch-waited-for-room");
         }
@@ -167,7 +180,7 @@ pub fn c05_check(scn: &Scenario, h: &History) -> Outcome {
 
 pub static C05: Profile = Profile {
     id: "C05",
-    rule: "proptest scenarios: capacity 1-4, blocking policy, every constructor path; reducer 0 is a stepper (takes one action per token), 1-3 producers with bursts up to 3*capacity+2, a controller thread releasing tokens in generated batches and finally opening the gate; one third of the cases are exact-capacity probes (primer held, `capacity` dispatches must return with no token released, the next one must wait). Oracle O-BOUND on the event log: at every dispatch return, (#completed dispatches) - (upper bound of actions taken by the reducer) <= capacity; lossless exactly-once after the gate is opened; a producer that is never woken is a deadlock under the schedule-controlled driver. Non-trivial = the bound was reached with the reducer provably inside a callback AND some dispatch was invoked while the queue was provably full and returned only after a later action was taken (or, for probes, the bound was reached); distinct by scenario hash.",
+    rule: "proptest scenarios: capacity 1-4, blocking policy, every constructor path; reducer 0 is a stepper (takes one action per token), 1-3 producers with bursts up to 3*capacity+2, a controller thread releasing tokens in generated batches and finally opening the gate, in a third of these cases a thread that stops the store while producers may still be waiting for room; one third of the cases are exact-capacity probes (primer held, `capacity` dispatches must return with no token released, the next one must wait). Oracle O-BOUND on the event log: at every dispatch return, (#completed dispatches) - (upper bound of actions taken by the reducer) <= capacity; lossless exactly-once after the gate is opened; a producer that is never woken is a deadlock under the schedule-controlled driver. Non-trivial = the bound was reached with the reducer provably inside a callback AND some dispatch was invoked while the queue was provably full and returned only after a later action was taken (or, for probes, the bound was reached); distinct by scenario hash.",
     raw,
     build: c05_build,
     check: c05_check,
